@@ -257,7 +257,7 @@ def run_history(chk, spec):
 	trace = []
 	for step in range(spec["nsteps"]):
 		op = rng.choice(["rename_column", "rename_columns", "view-rename", "attr-replace", "rshift", "dir", "repr", "view-rename-then-dir", "row-then-rename", "select",
-			"view-rename-then-read", "alias-then-read", "rename-to-later-name", "rshift-own-column"])
+			"view-rename-then-read", "alias-then-read", "rename-to-later-name", "rshift-own-column", "rename-then-access-under-warnings-as-errors"])
 		ncols = len(names)
 		i = rng.randrange(ncols)
 		new = rng.choice(DICT)
@@ -316,6 +316,19 @@ def run_history(chk, spec):
 				chk.fail("a plain repeated name resolves to its first occurrence (attribute access right after the rename)", "accessor/repeated-name-resolves-to-later-column/first-access-after-rename/getattr",
 					f"{spec!r}: column {i} renamed to {target_name!r} (also the name of column {j}); t.{model_sanitise(target_name)} is column {where}; trace {trace[-5:]}")
 				return
+		elif op == "rename-then-access-under-warnings-as-errors":
+			# the process runs with warnings turned into errors: the first look at the table after a rename that creates a repeated name is rejected
+			# (UserWarning) - afterwards, with the filter back to normal, everything is as after any rename
+			import warnings
+			col = t.cols()[i]
+			target_name = rng.choice([nm for nm in names if isinstance(nm, str) and nm] or ["a"])
+			o = call(setattr, col, "name", target_name)
+			if not o.ok:
+				continue
+			names[i] = target_name
+			with warnings.catch_warnings():
+				warnings.simplefilter("error")
+				call(rng.choice([lambda: dir(t), lambda: getattr(t, "no_such_attribute_xyz", None), lambda: t[0], lambda: repr(t), lambda: t.shape]))
 		elif op == "rshift-own-column":
 			# t >> {new name: one of t's own live columns}: t keeps its stored names
 			if ncols >= 12 or new in ("",):
@@ -430,7 +443,28 @@ def early_probe(chk, t, names, rng, spec):
 	return True
 
 
-RUNNERS = {"static": run_static, "history": run_history}
+def run_label_accessors(chk, spec):
+	"""labels that are not strings: the advertised accessor is the sanitised text of THAT label, whatever labels were sanitised earlier in the process"""
+	from fractions import Fraction
+	from decimal import Decimal
+	lab = {"1": 1, "True": True, "1.0": 1.0, "0": 0, "False": False, "0.0": 0.0, "2.5": 2.5, "Fraction(5, 2)": Fraction(5, 2), "3.0": 3.0, "Decimal(3)": Decimal(3), "2023": 2023}
+	sp = {"1": "c1", "True": "true", "1.0": "c1_0", "0": "c0", "False": "false", "0.0": "c0_0", "2.5": "c2_5", "Fraction(5, 2)": "c5_2", "3.0": "c3_0", "Decimal(3)": "c3", "2023": "c2023"}
+	for x in spec["sequence"]:
+		t = Table([Vector([0, 1], name=lab[x]), Vector([100, 101], name="z")])
+		chk.judged("static", ("label-accessor", x, tuple(spec["sequence"])))
+		d = call(dir, t)
+		base, public = base_dir()
+		adv = [a for a in (d.value if d.ok else []) if a not in base]
+		if sorted(adv) != sorted([sp[x], "z"]):
+			chk.fail("sanitisation follows the documented rules", "accessor/sanitisation/non-string-label", f"{spec!r}: label {lab[x]!r} is advertised as {sorted(adv)!r}, documented rule gives {sp[x]!r}")
+			return
+		g = call(getattr, t, sp[x])
+		if not g.ok or g.value is not t.cols()[0]:
+			chk.fail("each advertised name resolves by attribute access to the column at its own position", "accessor/advertised-name-unresolvable/non-string-label", f"{spec!r}: t.{sp[x]} -> {g!r}")
+			return
+
+
+RUNNERS = {"static": run_static, "history": run_history, "label_accessors": run_label_accessors}
 RUNNERS["recompute"] = recompute.runner("C17")
 
 
@@ -454,6 +488,9 @@ def run(chk):
 			i, j = rng.sample(range(k), 2)
 			names[j] = names[i]
 		chk.case("static", {"names": names, "pre": rng.choice([None, "dir", "repr"]), "nrows": rng.choice([1, 2, 3])}, "static-wide")
+	import itertools as _it
+	for seq in list(_it.permutations(["1", "True", "1.0"])) + list(_it.permutations(["0", "False", "0.0"])) + [("2.5", "Fraction(5, 2)"), ("Fraction(5, 2)", "2.5"), ("3.0", "Decimal(3)"), ("Decimal(3)", "3.0"), ("2023",)]:
+		chk.case("label_accessors", {"sequence": list(seq)}, "label-accessors")
 	for _ in range(420 if chk.quick() else 3000):
 		k = rng.choice([1, 2, 3, 4, 6])
 		names = [rng.choice(DICT) for _ in range(k)]
